@@ -163,11 +163,17 @@ func (b *FSBucket) Object(name string) ObjectHandle {
 
 type FSObject struct {
 	filename string
+	err      error // set if the object name does not denote a file inside the bucket
 }
 
 func NewFSObject(b *FSBucket, name string) ObjectHandle {
-	filename := filepath.Join(b.dir, b.bucket, filepath.FromSlash(name))
-	return &FSObject{filename}
+	rel := filepath.FromSlash(name)
+	if !filepath.IsLocal(rel) {
+		// For example "../x": the object would lie outside the bucket's directory.
+		return &FSObject{err: fmt.Errorf("invalid object name %q", name)}
+	}
+	filename := filepath.Join(b.dir, b.bucket, rel)
+	return &FSObject{filename: filename}
 }
 
 func (o *FSObject) Filename() string {
@@ -175,6 +181,9 @@ func (o *FSObject) Filename() string {
 }
 
 func (o *FSObject) NewReader(ctx context.Context) (io.ReadCloser, error) {
+	if o.err != nil {
+		return nil, ErrObjectNotExist
+	}
 	r, err := os.Open(o.filename)
 	if errors.Is(err, os.ErrNotExist) || errors.Is(err, syscall.ENOTDIR) {
 		// ENOTDIR: a leading component of the name is itself an object.
@@ -192,6 +201,9 @@ func (o *FSObject) NewReader(ctx context.Context) (io.ReadCloser, error) {
 }
 
 func (o *FSObject) NewWriter(ctx context.Context) (io.WriteCloser, error) {
+	if o.err != nil {
+		return nil, o.err
+	}
 	if err := os.MkdirAll(filepath.Dir(o.filename), os.ModePerm); err != nil {
 		return nil, err
 	}
